@@ -427,7 +427,10 @@ theorem conc_inv (ops : List Op) (calls : List Conc.Pc) (sched : List Conc.Tid) 
 /-- **The cross-index invariant, weakened exactly by what is in flight.** For EVERY schedule and every
 actor `a`: (1) reverse ⊆ forward: a membership in `a`'s reverse index without its forward entry is one
 that a `join_scoped` holding that group entry has accepted and not yet inserted (`accOf`) — nothing else;
-group-monitor and world-monitor entries always have their forward entry; (2) forward ⊆ reverse can
+a group-monitor or world-monitor entry without its forward entry is a stale one recorded in the ghosts
+`staleG` / `staleW`: left by the entry region of a `demonitor` / `demonitor_scope` whose
+`get_actor_relations` — done before the entry is taken — had found no `Arc` (a `monitor*` of the same actor
+ran in between); (2) forward ⊆ reverse can
 fail for `a` only inside `a`'s OWN exit, and then every stale forward entry (or accepted-but-uncommitted
 membership) is one of the keys that exit has drained and not yet visited (`demon gk wk`: stale listener
 entries ⊆ `gk` / `wk`; `leaving mk _`: stale member entries ⊆ `mk`); no operation of any other thread —
@@ -436,7 +439,8 @@ accounts for such a discrepancy; (3) what the exit has drained from the reverse 
 theorem conc_cross_index_windows (ops : List Op) (calls : List Conc.Pc) (sched : List Conc.Tid) (a : Nat) :
     let g := Conc.run (g0 ops calls) sched
     ((∀ k, k ∈ relMem g.st a → a ∈ membersOf g.st k ∨ a ∈ Conc.accOf g k) ∧
-      (∀ k, k ∈ relGmon g.st a → a ∈ listenersOf g.st k) ∧ (∀ s, s ∈ relWmon g.st a → a ∈ worldOf g.st s)) ∧
+      (∀ k, k ∈ relGmon g.st a → a ∈ listenersOf g.st k ∨ (a, k) ∈ g.staleG) ∧
+      (∀ s, s ∈ relWmon g.st a → a ∈ worldOf g.st s ∨ (a, s) ∈ g.staleW)) ∧
     (∀ k, a ∈ membersOf g.st k ∨ a ∈ Conc.accOf g k →
       k ∈ relMem g.st a ∨ ∃ mk rm, Conc.phaseOf g a = .leaving mk rm ∧ k ∈ mk) ∧
     (∀ k, a ∈ listenersOf g.st k → k ∈ relGmon g.st a ∨ ∃ gk wk, Conc.phaseOf g a = .demon gk wk ∧ k ∈ gk) ∧
@@ -470,14 +474,19 @@ theorem conc_cross_index_windows (ops : List Op) (calls : List Conc.Pc) (sched :
     | demon gk wk => exact Or.inr ⟨gk, wk, rfl, this⟩
     | _ => exact absurd this id
 
-/-- Full forward ↔ reverse agreement for every actor that is not inside its own exit — whatever all the
-other threads and all the other exits are in the middle of (membership counted with what a `join_scoped`
-holding the entry has accepted and is about to insert). -/
+/-- Forward ↔ reverse agreement for every actor that is not inside its own exit — whatever all the
+other threads and all the other exits are in the middle of: full `↔` for memberships (counted with what a
+`join_scoped` holding the entry has accepted and is about to insert); every forward monitor entry has its
+reverse entry (so the exit will find and remove it), and a reverse monitor entry has its forward entry
+unless it is a recorded stale one. -/
 theorem conc_agreement_outside_own_exit (ops : List Op) (calls : List Conc.Pc) (sched : List Conc.Tid) (a : Nat) :
     let g := Conc.run (g0 ops calls) sched
     (Conc.phaseOf g a = .live ∨ Conc.phaseOf g a = .marked) →
     (∀ k, (a ∈ membersOf g.st k ∨ a ∈ Conc.accOf g k) ↔ k ∈ relMem g.st a) ∧
-    (∀ k, a ∈ listenersOf g.st k ↔ k ∈ relGmon g.st a) ∧ (∀ s, a ∈ worldOf g.st s ↔ s ∈ relWmon g.st a) := by
+    (∀ k, (a ∈ listenersOf g.st k → k ∈ relGmon g.st a) ∧
+      (k ∈ relGmon g.st a → a ∈ listenersOf g.st k ∨ (a, k) ∈ g.staleG)) ∧
+    (∀ s, (a ∈ worldOf g.st s → s ∈ relWmon g.st a) ∧
+      (s ∈ relWmon g.st a → a ∈ worldOf g.st s ∨ (a, s) ∈ g.staleW)) := by
   intro g hp
   obtain ⟨⟨r1, r2, r3⟩, f1, f2, f3, _⟩ := conc_cross_index_windows ops calls sched a
   refine ⟨fun k => ⟨fun h => ?_, r1 k⟩, fun k => ⟨fun h => ?_, r2 k⟩, fun s => ⟨fun h => ?_, r3 s⟩⟩
@@ -508,13 +517,18 @@ theorem conc_no_zombie (ops : List Op) (calls : List Conc.Pc) (sched : List Conc
     fun s x => hfW s x, hM trivial, (hG trivial).1, (hG trivial).2⟩
 
 /-- **At rest** (every caller has returned, every exit that started has finished, no entry is held): no
-stopping actor is a member or a monitor of anything, and forward ↔ reverse agreement is total. -/
+stopping actor is a member or a monitor of anything; forward ↔ reverse agreement is total for memberships;
+every forward monitor entry has its reverse entry, and a reverse monitor entry without its forward entry is a
+recorded stale one (of an actor that is still alive: an exit drains them). -/
 theorem conc_at_rest (ops : List Op) (calls : List Conc.Pc) (sched : List Conc.Tid) :
     let g := Conc.run (g0 ops calls) sched
     Conc.atRest g →
     (∀ a, a ∈ g.st.dead → (∀ k, a ∉ membersOf g.st k) ∧ (∀ k, a ∉ listenersOf g.st k) ∧ (∀ s, a ∉ worldOf g.st s)) ∧
-    (∀ a k, a ∈ membersOf g.st k ↔ k ∈ relMem g.st a) ∧ (∀ a k, a ∈ listenersOf g.st k ↔ k ∈ relGmon g.st a) ∧
-    (∀ a s, a ∈ worldOf g.st s ↔ s ∈ relWmon g.st a) := by
+    (∀ a k, a ∈ membersOf g.st k ↔ k ∈ relMem g.st a) ∧
+    (∀ a k, (a ∈ listenersOf g.st k → k ∈ relGmon g.st a) ∧
+      (k ∈ relGmon g.st a → a ∈ listenersOf g.st k ∨ ((a, k) ∈ g.staleG ∧ a ∉ g.st.dead))) ∧
+    (∀ a s, (a ∈ worldOf g.st s → s ∈ relWmon g.st a) ∧
+      (s ∈ relWmon g.st a → a ∈ worldOf g.st s ∨ ((a, s) ∈ g.staleW ∧ a ∉ g.st.dead))) := by
   intro g hr
   have hacc : ∀ k (x : Nat), x ∉ Conc.accOf g k := by
     intro k x hx
@@ -523,24 +537,43 @@ theorem conc_at_rest (ops : List Op) (calls : List Conc.Pc) (sched : List Conc.T
       (∀ s, a ∉ worldOf g.st s) := by
     intro a hd
     rcases hr.2.1 a with hp | hp
-    · obtain ⟨c1, c2, c3⟩ := (conc_inv ops calls sched a).old hp hd
+    · obtain ⟨⟨c1, c2, c3⟩, _⟩ := (conc_inv ops calls sched a).old hp hd
       exact ⟨fun k x => c1 k (Or.inl x), c2, c3⟩
     · obtain ⟨_, c1, c2, c3, _⟩ := conc_no_zombie ops calls sched a hp
       exact ⟨fun k => (c1 k).1, c2, c3⟩
-  have hagree : ∀ a, (∀ k, a ∈ membersOf g.st k ↔ k ∈ relMem g.st a) ∧
-      (∀ k, a ∈ listenersOf g.st k ↔ k ∈ relGmon g.st a) ∧ (∀ s, a ∈ worldOf g.st s ↔ s ∈ relWmon g.st a) := by
+  -- the reverse-index sets of a stopping actor are empty at rest
+  have hdeadrel : ∀ a, a ∈ g.st.dead → (∀ k, k ∉ relMem g.st a) ∧ (∀ k, k ∉ relGmon g.st a) ∧ (∀ s, s ∉ relWmon g.st a) := by
+    intro a hd
+    rcases hr.2.1 a with hp | hp
+    · exact ((conc_inv ops calls sched a).old hp hd).2
+    · obtain ⟨_, _, _, _, e1, e2, e3⟩ := conc_no_zombie ops calls sched a hp
+      exact ⟨e1, e2, e3⟩
+  have hfwd : ∀ a, (∀ k, (a ∈ membersOf g.st k ∨ a ∈ Conc.accOf g k) → k ∈ relMem g.st a) ∧
+      (∀ k, a ∈ listenersOf g.st k → k ∈ relGmon g.st a) ∧ (∀ s, a ∈ worldOf g.st s → s ∈ relWmon g.st a) := by
     intro a
     rcases hr.2.1 a with hp | hp
     · obtain ⟨e1, e2, e3⟩ := conc_agreement_outside_own_exit ops calls sched a (Or.inl hp)
-      refine ⟨fun k => ⟨fun h => (e1 k).mp (Or.inl h), fun h => ?_⟩, e2, e3⟩
-      rcases (e1 k).mpr h with x | x
-      · exact x
-      · exact absurd x (hacc k a)
-    · obtain ⟨_, c1, c2, c3, e1, e2, e3⟩ := conc_no_zombie ops calls sched a hp
-      exact ⟨fun k => ⟨fun h => absurd h (c1 k).1, fun h => absurd h (e1 k)⟩,
-        fun k => ⟨fun h => absurd h (c2 k), fun h => absurd h (e2 k)⟩,
-        fun s => ⟨fun h => absurd h (c3 s), fun h => absurd h (e3 s)⟩⟩
-  exact ⟨hclean, fun a => (hagree a).1, fun a => (hagree a).2.1, fun a => (hagree a).2.2⟩
+      exact ⟨fun k => (e1 k).mp, fun k => (e2 k).1, fun s => (e3 s).1⟩
+    · obtain ⟨_, c1, c2, c3, _⟩ := conc_no_zombie ops calls sched a hp
+      exact ⟨fun k h => h.elim (fun x => absurd x (c1 k).1) (fun x => absurd x (c1 k).2),
+        fun k h => absurd h (c2 k), fun s h => absurd h (c3 s)⟩
+  obtain hrev := fun a => (conc_cross_index_windows ops calls sched a).1
+  refine ⟨hclean, ?_, ?_, ?_⟩
+  · intro a k
+    refine ⟨fun h => (hfwd a).1 k (Or.inl h), fun h => ?_⟩
+    rcases (hrev a).1 k h with x | x
+    · exact x
+    · exact absurd x (hacc k a)
+  · intro a k
+    refine ⟨(hfwd a).2.1 k, fun h => ?_⟩
+    rcases (hrev a).2.1 k h with x | x
+    · exact Or.inl x
+    · exact Or.inr ⟨x, fun hd => (hdeadrel a hd).2.1 k h⟩
+  · intro a s
+    refine ⟨(hfwd a).2.2 s, fun h => ?_⟩
+    rcases (hrev a).2.2 s h with x | x
+    · exact Or.inl x
+    · exact Or.inr ⟨x, fun hd => (hdeadrel a hd).2.2 s h⟩
 
 /-- **Every query is the projection of the membership relation — in EVERY state of every schedule**, not
 only at rest: the forward map keeps unique keys and the scope index lists exactly the groups with
@@ -665,6 +698,23 @@ theorem conc_join_guard_vacuous (ops : List Op) (calls : List Conc.Pc) (sched : 
   simp only [Option.some.injEq, Prod.mk.injEq] at hacc'
   exact hacc'.1
 
+/-- Where a stale reverse-only monitor entry comes from: only the entry region of a `demonitor` whose
+`get_actor_relations` had found no `Arc` records one (and likewise `demonitor_scope` for `staleW`). -/
+theorem conc_stale_origin (g : Conc.G) (t : Conc.Tid) (x : Nat) (k : Key) (h : (x, k) ∈ (Conc.step g t).staleG) :
+    (x, k) ∈ g.staleG ∨
+      ∃ i g1, t = .call i ∧ g.thr[i]? = some (.demonitorFwd g1 x) ∧ k = (defaultScope, g1) :=
+  Conc.stale_origin g t x k h
+
+/-- witness (the real code does this; found while modelling): actor 5 has no reverse-index entry;
+`demonitor(0, 5)` fetches `None`; `monitor(0, 5)` runs completely (creates the entry, registers 5 on both
+sides); the demonitor's entry region removes 5 from the forward listener list only. At rest 5 is not a
+listener — the forward side is the linearised `monitor; demonitor` — but its reverse index still lists the
+group: a stale entry, recorded in `staleG`. -/
+example :
+    let g := Conc.run (g0 [] [.demonitorCall 0 5, .monitor 0 5]) [.call 0, .call 1, .call 1, .call 0, .call 1]
+    g.thr = [.done, .done] ∧ listenersOf g.st (defaultScope, 0) = [] ∧ relGmon g.st 5 = [(defaultScope, 0)] ∧
+    g.staleG = [(5, (defaultScope, 0))] := by decide
+
 /-- **No reverse-index leak under interleaving.** For every schedule: the reverse-index ENTRY of an actor
 whose exit has finished (or that was stopping from the start) exists only while some `monitor` /
 `monitor_scope` call naming it is between its `get_or_create_actor_relations` and the end of its re-check
@@ -767,3 +817,4 @@ end C11
 #print axioms C11.conc_no_reverse_index_leak
 #print axioms C11.conc_payload_sound
 #print axioms C11.conc_join_guard_vacuous
+#print axioms C11.conc_stale_origin
